@@ -6,6 +6,8 @@ once `NeoModel.Model.Mpt` provides `lookup_putBatch`).
 import NeoModel.Model.StateCommit
 import NeoModel.Proofs.StateCommit
 import NeoModel.Props.C10
+import NeoModel.Model.Mpt.Traverse
+import NeoModel.Proofs.MptLookup
 namespace NeoModel.StateCommit
 
 theorem applyBatch_append (s : Storage) (a b : List Change) :
@@ -158,6 +160,45 @@ theorem mpt_root_commits (bs : List (List Change)) (hok : ∀ b ∈ bs, Distinct
 
 example : Mpt.lookup (trieAt mptMap [[([0x12], some [7])], [([0x12], none), ([0x13, 0x01], some [])]]) (toNibbles [0x13, 0x01]) = some [] := by
   rw [mpt_root_commits _ (by intro b hb; simp at hb; rcases hb with rfl | rfl <;> simp [DistinctKeys])]; decide
+/-! ### Historic range search -/
+
+/-- membership form of C10's `seek_spec`. -/
+theorem seek_mem (t : Mpt.Node) (pre fromP : Path) (back : Bool) (r : Path) (v : Val) :
+    (r, v) ∈ seek t pre fromP back ↔ Mpt.lookup t (pre ++ r) = some v ∧ inRange back fromP r = true := by
+  rw [NeoModel.C10.seek_spec]
+  have hdir : ∀ (l : List (Path × Val)), (r, v) ∈ dir back l ↔ (r, v) ∈ l := by
+    intro l; unfold dir; split <;> simp
+  rw [hdir, List.mem_filter]
+  unfold under
+  simp only [List.mem_filterMap, Option.map_eq_some_iff, Prod.mk.injEq]
+  constructor
+  · rintro ⟨⟨e, he, r', hr', rfl, rfl⟩, hin⟩
+    refine ⟨?_, hin⟩
+    have := stripPre_eq_some.mp hr'
+    rw [← this]
+    exact (NeoModel.C10.mem_entries t e.1 e.2).mp he
+  · rintro ⟨hl, hin⟩
+    refine ⟨⟨(pre ++ r, v), (NeoModel.C10.mem_entries t _ _).mpr hl, r, stripPre_append pre r, rfl, rfl⟩, hin⟩
+
+/-- **historic_seek** (C03.2): a range search over the trie named by the state root of any height
+    (`TrieStore.Seek`: any prefix, start, direction) returns a pair exactly if contract storage of
+    that height holds it under a key with the prefix whose remainder is in range of the start —
+    for keys given as bytes (`toNibbles`). Order and uniqueness of the answer are C10's `seek_spec`
+    (ascending / descending by key, `entries_sorted`). -/
+theorem historic_seek (bs : List (List Change)) (hok : ∀ b ∈ bs, DistinctKeys b)
+    (pre fromP : Path) (back : Bool) (r : Path) (v : Val) (k : Key) (hk : pre ++ r = toNibbles k) :
+    (r, v) ∈ seek (trieAt mptMap bs) pre fromP back ↔ storageAt bs k = some v ∧ inRange back fromP r = true := by
+  rw [seek_mem, hk, mpt_root_commits bs hok k]
+
+/-- nothing extra: every pair a historic range search returns is a pair of that height's storage
+    (no hypothesis on how the key is written). -/
+theorem historic_seek_sound (bs : List (List Change))
+    (pre fromP : Path) (back : Bool) (r : Path) (v : Val) (h : (r, v) ∈ seek (trieAt mptMap bs) pre fromP back) :
+    Mpt.lookup (trieAt mptMap bs) (pre ++ r) = some v := ((seek_mem _ _ _ _ _ _).mp h).1
+
+example : ([(0:Nib),3], ([9] : Val)) ∈ seek (trieAt mptMap [[([0x12,0x03], some [9]), ([0x13], some [1])]]) (toNibbles [0x12]) [] false :=
+  (historic_seek _ (by intro b hb; simp at hb; subst hb; simp [DistinctKeys]) (toNibbles [0x12]) [] false [0,3] [9] [0x12,0x03] (by decide)).mpr
+    ⟨by decide, by decide⟩
 end instance_mpt
 
 end NeoModel.StateCommit
